@@ -20,6 +20,38 @@ PROPS = {
                 technique="TLA+ Periodic/Mass specs (exact big-number masses) with TLC-generated element, formula and mixture cases replayed into chempy; TLC trace validation of seeded formula masses",
                 text="TLC checks the reference table's consistency invariants and emits one case per element (symbol, name, weight, period/group); every formula of the Formula_MC slices carries its exact mass (limb arithmetic); MassMix enumerates mixtures with exact fractions; the code's table, atomic_number lookups in all letter cases, Substance.mass, mass_from_composition and mass_fractions must agree (1e-12 relative); seeded deeper formulas are judged by TLC in exact arithmetic.",
                 note="reference table frozen in spec/Periodic.tla after manual review (trusted base); float rounding tolerance 1e-12 relative"),
+    "C03": dict(claimed=True, level=MC, design_ref="4/C03, 11",
+                technique="TLA+ Kinetics spec (rate polynomials over a 64-reaction catalog, prime-valued points); TLC-generated cases replayed into Reaction.rate / ReactionSystem.rates / dCdt_list with int, float, Fraction and symbolic variables; TLC trace validation of seeded and suite calls",
+                text="TLC enumerates every system of up to 3 catalog reactions (all orders; catalysts, repeated species, inactive parts, zero order, CSTR feeds), checks permutation invariance and the inactive/untouched-species invariants, and emits the exact per-substance rate polynomial and its value at prime points; every terminal state is replayed into the three rate APIs (symbolic results compared as monomial tables); seeded larger systems and the repository tests' own calls are judged by KineticsTrace.",
+                note="bounded catalog/system size; exact rational arithmetic; floats compared at the tolerance carried by the case"),
+    "C04": dict(claimed=True, level=MC, design_ref="4/C04, 11",
+                technique="TLA+ OdeBuild spec (build configurations x systems -> expected names, parameter set and RHS polynomials); generated cases replayed into get_odesys/_create_odesys and compared symbolically by monomial tables; TLC trace validation",
+                text="For every catalog system and every accepted build configuration TLC gives the expected dependent-variable order, parameter-name set and per-substance polynomial with parameters inlined or free (invariant: binding the free symbols yields the inlined form); the real builders' exprs are projected to monomial tables with symbols mapped by name and must be identical; f_cb, rate_exprs_cb and linear_invariants are evaluated at prime points; seeded systems and suite calls are judged by OdeBuildTrace.",
+                note="configurations the builders refuse by design are marked MayRefuse and skipped; native back ends not installed"),
+    "C05": dict(claimed=True, level=MC, design_ref="4/C05, 11",
+                technique="TLA+ Conservation spec (accept iff balanced in every key incl. charge, B matrix, Euler-step action property); generated cases and step traces validated against ReactionSystem / composition_balance_vectors / linear_dependencies; Session.tla behaviours replayed through the text pipeline",
+                text="TLC enumerates balanced and single-key-unbalanced reactions (charge only, first/last position) and checks [][B.c' = B.c] along Euler steps on the model; replay requires construction success iff Accept, B exactly equal, B.N^T = 0, B.rates = 0 on integer grids, analytic eliminations reproducing the invariants (judged by TLC) and integration drift within tolerance; Session.tla sessions (text -> system -> rates -> Euler step -> split) are replayed step by step.",
+                note="bounded compositions (keys 0,1,2 + formula-defined pool); integration drift is a numerical tolerance check"),
+    "C06": dict(claimed=True, level=EX, design_ref="4/C06, 11",
+                technique="TLA+ Conservation spec enumerates first-order network topologies / bimolecular steps with exact bounds and safe Euler step (invariant checked by TLC); trajectories from chempy compared with reference solutions computed from the spec's matrix",
+                text="TLC model-checks that the documented safe Euler step keeps every state inside [0, elemental upper bound] and enumerates network topologies x decade rate constants with their generator matrices, bounds and reaction text; the text is run through from_string -> get_odesys -> integrate(scipy) and compared with expm / high-accuracy reference solutions of the spec's system, non-negativity and bounds against the spec's rationals, max_euler_step_cb against MaxEulerStep.",
+                note="agreement to tolerance is judged numerically at sampled systems; only the scipy integrator is installed"),
+    "C16": dict(claimed=True, level=EX, design_ref="4/C16, 11",
+                technique="TLA+ ExprTree spec (argument resolution case analysis, expression-tree algebra with exact rational values, named laws as term trees) with TLC-generated cases evaluated under math/numpy/sympy/units back ends; term trees evaluated by a law-agnostic interpreter",
+                text="TLC enumerates every argument-resolution configuration (nargs <= 3), expression trees of depth <= 3 with exact rational values (EvalQ) and every named rate/equilibrium law instantiated over parameter/temperature grids as term trees; the real classes are evaluated with floats, numpy, sympy-then-substitute and quantities and must agree with the exact value or the evaluated term within the case's tolerance; recorded evaluations are judged by ExprTreeTrace at rational points.",
+                note="transcendental laws are judged numerically via harness/terms.py; gas constant bracketed"),
+    "C17": dict(claimed=True, level=EX, design_ref="4/C17, 11",
+                technique="TLA+ Integrated spec (mechanism, rate equation, initial value and advertised backends per closed form) generating rational parameter grids; residual of the rate equation obtained by CAS differentiation of the real function and evaluated at 40 digits",
+                text="For each of the seven closed forms TLC fixes which differential equation and initial value must hold and enumerates function x backend x rational grid (incl. non-zero initial product, reactant above/below steady state); the binding layer differentiates the real function symbolically and evaluates d/dt f - RHS(f) and f(0) at the grid points, and evaluates every advertised backend.",
+                note="identity in time is sampled at grid points; differentiation by sympy"),
+    "C18": dict(claimed=True, level=EX, design_ref="4/C18, 11",
+                technique="TLA+ Electrolytes spec (exact ionic strength / net charge in big-decimal arithmetic, permutation/merge/scale histories, DH laws as term trees exact at perfect-square ionic strengths) with generated cases and TLC-judged traces",
+                text="TLC computes ionic strength and net charge exactly for ion sets over 12 decades of molality and |z| <= 4 in every input form, checks invariance under permute/merge/scale histories and the warning class, and checks the limiting/extended/Davies relations exactly at rational points; A and B (both code paths, with and without units), log-gammas and activity products are compared with the spec's terms over the (T, eps, rho) grid.",
+                note="numerical agreement at non-rational points judged via harness/terms.py; physical constants pinned"),
+    "C19": dict(claimed=True, level=EX, design_ref="4/C19, 11",
+                technique="TLA+ PhysProps spec (per relation: dimensions, validity range, law as term, anchors, shape facts; call modes unitless/default/scaled units) with generated cases; TLC judges mode agreement, dimensions, warnings and observed series",
+                text="TLC enumerates relation x grid point (inside and just outside each validity range) x unit mode and decides ModesDenoteSameValue, result dimension, WarnIffOutside, inverse round trips, anchors and monotone/extremum shape facts; the real functions are called in all modes (incl. inputs in mK, mM, Pa, g) and compared.",
+                note="literature coefficients pinned from the cited papers as typed in chempy's docstrings; values compared at the case's tolerance"),
 }
 for _i in range(2, 21):
     PROPS.setdefault("C%02d" % _i, dict(claimed=False))
